@@ -152,6 +152,9 @@ var c17Fragments = []string{
 	"{% import 'lib' as L %}{{ L.lm(v) }}", "{% from 'lib' import lm as lm2 %}{{ lm2(sg1(3)) }}",
 	"{{ [sg1(1), 2]|length }}", "{{ {'k': sg1(2)}|length }}", "{{ yes ? sg1(3) : sg2(4) }}", "{{ no ? sg1(3) : sg2(4) }}",
 	"{% if v is st1 %}t{% endif %}", "{% if (v|sf1) is defined %}d{% endif %}", "{% if sg1(m).k is defined %}d{% endif %}", "{% if v is not st1 %}t{% endif %}",
+	// a test applied to an undefined, null or missing operand is still invoked, and still fails the render when it fails
+	"{% if zz is st1 %}t{% else %}e{% endif %}", "{{ null is st1 ? 'y' : 'n' }}", "{{ m.nokey is st1 ? 'y' : 'n' }}", "{% if zz is not st1 %}t{% endif %}", "{% for i in [null] %}{% if i is st1 %}t{% endif %}{% endfor %}",
+	"{{ zz|sf1 }}", "{{ null|sf2 }}", "{{ m.nokey|sf1|default('d') }}", "{{ sg1(zz) }}", "{{ sg2(null)|default('d') }}",
 	"{{ sg1(1) + sg2(2) }}", "{{ -sg1(1) }}", "{{ xs[sg1(0)] }}", "{{ sg1(m).k }}", "{{ sg1(1) and sg2(1) }}", "{{ sg1(0) or sg2(1) }}", "{{ v ~ sg1('x') }}", "{{ sg1(1) in xs }}", "{{ zz|default(sg1(4)) }}", "{{ v|sf1(sg2(1)) }}",
 	"{% do sg1(9) %}", "{{ sg1(sg2(sg1(1))) }}", "{{ not sg1(0) }}", "{{ (sg1(2) > 1) ? 'y' : 'n' }}",
 	// a failing operand under every kind of built-in filter (tolerant ones like default must not swallow it)
